@@ -149,7 +149,9 @@ JoinLockWhy(s, j) ==      \* which branch of the critical section is taken (cove
   IF s.st[x] # "Active" THEN "join-refused-busy"
   ELSE IF FixPred /\ s.pred[x] # x /\ (s.pred[x] = Nil \/ ~Pingable(s, s.pred[x])) THEN "join-refused-pred-unsettled"
   ELSE IF s.pred[x] = Nil THEN "join-panic"
-  ELSE IF ~NB(s.lay, s.pred[x], j, x, FALSE) THEN "join-refused-wrong-successor"
+  ELSE IF ~NB(s.lay, s.pred[x], j, x, FALSE) THEN      \* (-with-keys: the node that joined in between holds keys the refused joiner will own)
+       "join-refused-wrong-successor" \o (IF s.pred[s.pred[x]] # Nil /\ \E k \in KeysOf(s.lay) : Present(s.store[s.pred[x]][k]) /\ KB(s.lay, s.pred[s.pred[x]], k, j, TRUE)
+                                          THEN "-with-keys" ELSE "")
   ELSE IF \E k \in KeysOf(s.lay) : Present(s.store[x][k]) /\ KB(s.lay, s.pred[x], k, j, TRUE) THEN "join-granted-with-keys"
   ELSE "join-granted-no-keys"
 JoinLockF(s0, j) ==
